@@ -148,6 +148,26 @@ def run(res, tier):
             res.ob('SELF-ALIAS', f.where(), '%s evaluates IsCharInLocalArray(%s) on every path before the buffer can move' % (f.q.split('::')[-1], p_.get('n')), ok, function=f.q, key='SELF-ALIAS|%s' % f.q,
                    message='%s can reallocate (or move from the inline buffer to the heap) before it reads from `%s` without having tested whether that pointer refers into the string itself: '
                            's += s() on a short string appends bytes of the overwritten inline storage (pointer/length fields) instead of the text' % (f.q, p_.get('n')))
+    # a method that reads from a const char * with memmove (i.e. tolerates a pointer into its own buffer) does not release its buffer before that read
+    for f in smeth:
+        cps = [p_ for p_ in f.params if f.ptype(p_).replace(' ', '') in ('constchar*', 'constchar*const')]
+        if not cps or f.q.endswith('(ctor)'):
+            continue
+        mv = [c for c in f.walk() if c.is_call() and (c.get('q') or '') == 'memmove' and len(c.args()) >= 2 and any(x['k'] == 'DeclRefExpr' and x.get('d') == cps[0]['d'] for x in c.args()[1].walk())]
+        if not mv:
+            continue
+        n_sa += 1
+        frees = [c for c in f.walk() if c.is_call() and re.search(r'String::(ClearAndFlush|Clear|SetBuffer)$|^(free|muscleFree)$', c.get('q') or '')]
+        bad = None
+        for fr in frees:
+            for m in mv:
+                a, b = P.pos_of(f, fr), P.pos_of(f, m)
+                if a and b and ((a[0] == b[0] and a[1] < b[1]) or C.can_reach(f, a, set([b]))):
+                    bad = (fr, m)
+        res.ob('SELF-ALIAS', f.where(), '%s does not release its buffer before the memmove that reads from `%s`' % (f.q.split('::')[-1], cps[0].get('n')), bad is None, function=f.q,
+               key='SELF-ALIAS|%s|no-free-before-read' % f.q,
+               message='%s releases its character buffer (%s, line %s) before the memmove that reads from `%s` (line %s): the method is written to accept a pointer into its own buffer (hence memmove), '
+                       'and in that case the source is read after it was freed' % (f.q, (bad[0].get('q') or '').split('::')[-1] if bad else '', bad[0].get('l') if bad else '', cps[0].get('n'), bad[1].get('l') if bad else ''))
     if n_ll < 5 or n_sa < 2:
         raise AnalysisBroken('LENGTH-LAST / SELF-ALIAS matched %d / %d String methods' % (n_ll, n_sa))
     res.explanation = ('Static decision of the serialisation clause of C17 only: symbolic evaluation shows String::Flatten writes FlattenedSize() == Length()+1 bytes from Cstr(); the reader takes a NUL-terminated '
